@@ -209,7 +209,7 @@ static void c14_apply(int ev) {
         static uint8_t buf[1600]; memset(buf, 0, sizeof buf);
         fb_base(buf, W.iface[0].mac, vf_station[ST_M1], 0, (uint8_t)FR14[ev], W.iface[0].mac, vf_station[ST_M1], 1);
         buf[32] = 0x12; buf[33] = 0x34;
-        dw_frame(&D, buf);
+        dw_frame(&D, buf, 64);
         check_step14(FR14[ev], "frame");
         M14.frame_age = 0; M14.had_frame = 1;
         /* the tick at the end of the frame path runs with 0 s of silence: nothing to demand */
